@@ -178,7 +178,13 @@ def run_workers(cid, tier, binpath, cfg, outdir, only=None):
             log.close()
             del procs[w]
             res = read_json(os.path.join(outdir, "w%d.json" % w))
-            if rc == 0 and res and res.get("done"):
+            # the race detector exits with 66 when it reported races; the reports are read from its log
+            if rc in (0, 66) and res and res.get("done"):
+                continue
+            # exit status 3: the worker recorded its finding and asks for a fresh process (no fault)
+            if rc == 3 and res and restarts[w] < 200 and only is None:
+                restarts[w] += 1
+                start(w, int(res.get("next_case", 0)))
                 continue
             # process fault: attribute to the journalled case, resume after it
             case = 0
@@ -210,14 +216,16 @@ def read_json(p):
 
 
 def tail_of(p, n=16000):
+    """the part of a worker log that matters: from the first panic / fatal error line on (else the tail)"""
     try:
         with open(p, "rb") as fh:
-            fh.seek(0, 2)
-            sz = fh.tell()
-            fh.seek(max(0, sz - n))
-            return fh.read().decode("utf-8", "replace")
+            data = fh.read(64 << 20).decode("utf-8", "replace")
     except Exception:
         return ""
+    m = re.search(r"^(panic: |fatal error: )", data, re.M)
+    if m:
+        return data[m.start():m.start() + n]
+    return data[-n:]
 
 
 def fault_sig(text):
@@ -243,7 +251,7 @@ def fault_sig(text):
             if frame and l.startswith("goroutine "):
                 break
             continue
-        l = re.sub(r"\(.*$", "", l)
+        l = l[:l.rfind("(")] if "(" in l else l
         if l.startswith("runtime") or l.startswith("panic") or l.startswith("internal/") or l.startswith("sync") or l.startswith("syscall"):
             continue
         if "internal/verif" in l:
@@ -283,8 +291,8 @@ def parse_races(outdir):
                 h = ls[0].strip()
                 if re.match(r"(WARNING: DATA RACE\n)?(Read|Write|Previous read|Previous write|Atomic|Previous atomic)", h) or \
                         (h.startswith("WARNING") and len(ls) > 1 and re.match(r"\s*(Read|Write)", ls[1])):
-                    fr = [x.strip() for x in ls if re.match(r"^\s+\S+\(", x) or re.match(r"^\s+[\w./\-]+\.[\w.()*\[\]]+\(", x)]
-                    fr = [re.sub(r"\(.*$", "", x) for x in fr]
+                    fr = [x.strip() for x in ls if re.match(r"^  \S", x) and x.rstrip().endswith("()")]
+                    fr = [x[:-2] for x in fr]
                     inner = ""
                     for x in fr:
                         if x.startswith(RACE_SKIP):
